@@ -120,6 +120,21 @@ def lag_scenario(seed, when):
             "steps": steps, "settle_ms": 300, "step_timeout_ms": 4000, "drain_max_ms": 8000}
 
 
+def slow_reader_scenario(seed):
+    """a follower that does not consume while its historical replay runs: the scan fills the reader's 100-slot buffer and has
+    to wait there - with exactly 100 frames of history it is the threshold marker that finds the buffer full. Whatever the
+    reader's pace: the whole history, then exactly one marker, then what was appended meanwhile"""
+    r = random.Random(seed)
+    n = r.choice([100, 100, 99, 101, 130])
+    history = [{"topic": hx("h"), "ctx": ZERO} for _ in range(n)]
+    reader = {"follow": r.choice(["on", "on", 25]), "tail": False, "last": None, "limit": None, "ctx": r.choice([None, ZERO]), "consume": "manual"}
+    steps = [["start_reader", "r1"], ["free", None], ["sleep", 200]]
+    steps += [["append", {"topic": hx("live"), "ctx": ZERO, "ttl": r.choice([None, "ephemeral"])}] for _ in range(r.randint(1, 3))]
+    steps += [["sleep", 100]]
+    return {"name": "slow-reader-%d" % seed, "history": history, "writers": {}, "readers": {"r1": reader},
+            "steps": steps, "settle_ms": 300, "step_timeout_ms": 4000, "drain_max_ms": 8000}
+
+
 def expiry_scan_scenario(seed):
     """C09, streaming read path: the clock passes a `time:N` frame's expiry while the history scan is under way (the
     reader is parked before its first delivery). Frames the scan reaches afterwards are judged by the clock as it is then."""
